@@ -16,9 +16,12 @@
   The "exactly the images" direction uses the documented JSON form read backwards
   (Spec/Lift.lean: `expectedDeser` = constructor ∘ `liftDoc`): it
   is evaluated by the driver on every case as the oracle for the real Deserializer; its agreement
-  with `deserialize` is checked by correspondence, not proved (stated in DESIGN as the open part).
+  with `deserialize` is proved on the exact fragment (`deserialize_exact_partial`: scalars, enums,
+  Array/Deque/Tuple without uniqueItems, nested classes, any depth) and checked by correspondence
+  elsewhere.
 -/
 import TypedpyModel.Lemmas.DeserErr
+import TypedpyModel.Lemmas.LiftEquiv
 namespace Typedpy.C06
 open Typedpy
 
@@ -102,6 +105,69 @@ theorem extra_keys_need_additional_properties (O : Oracles) (c : ClassOpts)
     cases (!c.required.any fun r => (lookup r kw).isNone) <;> rfl
   simp [construct, vConstruct, hb]
 
+/-- **C06, "exactly the images" (partial: the exact fragment)**: for every class of the fragment
+    `exactDecl` — scalars with every constraint, enums, Array / Deque / Tuple without uniqueItems,
+    nested Structure classes, at any depth — every JSON document `d` and every flag setting, the
+    Deserializer succeeds with result `x` exactly when `d` is the documented JSON form of keyword
+    arguments that the constructor accepts, and `x` is the instance the constructor builds from them -/
+theorem deserialize_exact_partial (O : Oracles) (opts : DeserOpts) (c : ClassOpts)
+    (fields : List (String × FieldDecl)) (defaults : List (String × PyVal)) (d x : PyVal)
+    (hex : exactDecl (.struct c fields defaults) = true) (hj : strictJson d = true) :
+    deserialize O opts (.struct c fields defaults) d = .ok x
+      ↔ expectedDeser O opts (.struct c fields defaults) d = some x := by
+  simp only [exactDecl, and_true_iff] at hex
+  obtain ⟨⟨⟨_, _⟩, hnd⟩, hef⟩ := hex
+  have hnd' : (fields.map (·.1)).Nodup := by simpa using hnd
+  cases d with
+  | dict kvs =>
+    have hj' : strictJsonPairs kvs = true := by simpa [strictJson] using hj
+    rcases strict_kwOfDict kvs hj' with ⟨doc, hdoc, hall⟩
+    have hE : ∀ a ∈ deserExtras opts c (fields.map (·.1)) doc, a.1 ∉ fields.map (·.1) := by
+      intro a ha
+      have := (List.mem_filter.mp ha).2
+      simp only [Bool.and_eq_true, Bool.not_eq_true'] at this
+      intro hm
+      have hc : (fields.map (·.1)).contains a.1 = true := by simpa using hm
+      rw [hc] at this; exact absurd this.1.1 (by simp)
+    have H := fields_equiv O opts c defaults doc hall fields hef hnd' _ _ hE hE
+    have core := struct_core O opts c fields defaults doc H x
+    simp only [deserialize, dClassRef, hdoc]
+    rw [core]
+    simp only [expectedDeser, liftDoc, hdoc, Option.bind_some, construct]
+    cases hl : liftFields O opts c doc fields with
+    | none => simp
+    | some args =>
+      simp only [Option.map_some]
+      cases hv : vConstruct c (fields.map (·.1)) (deserExtras opts c (fields.map (·.1)) doc ++ args)
+          (validateFields O c defaults (deserExtras opts c (fields.map (·.1)) doc ++ args) fields) with
+      | error e => simp
+      | ok y => simp
+  | _ =>
+    first
+    | (simp [strictJson] at hj; done)
+    | simp [deserialize, expectedDeser, liftDoc]
+
+/-- accepted exactly when the document denotes keyword arguments the constructor accepts -/
+theorem deserialize_accepts_iff_partial (O : Oracles) (opts : DeserOpts) (c : ClassOpts)
+    (fields : List (String × FieldDecl)) (defaults : List (String × PyVal)) (d : PyVal)
+    (hex : exactDecl (.struct c fields defaults) = true) (hj : strictJson d = true) :
+    (∃ x, deserialize O opts (.struct c fields defaults) d = .ok x)
+      ↔ ∃ kw x, liftDoc O opts (.struct c fields defaults) d = some kw
+          ∧ construct O (.struct c fields defaults) kw = .ok x := by
+  constructor
+  · rintro ⟨x, hx⟩
+    have := (deserialize_exact_partial O opts c fields defaults d x hex hj).mp hx
+    unfold expectedDeser at this
+    cases hl : liftDoc O opts (.struct c fields defaults) d with
+    | none => simp [hl] at this
+    | some kw =>
+      simp only [hl] at this
+      cases hc : construct O (.struct c fields defaults) kw with
+      | error e => simp [hc] at this
+      | ok y => exact ⟨kw, y, rfl, hc⟩
+  · rintro ⟨kw, x, hl, hc⟩
+    exact ⟨x, (deserialize_exact_partial O opts c fields defaults d x hex hj).mpr (by simp [expectedDeser, hl, hc])⟩
+
 /-! ### non-vacuity -/
 
 def exO : Oracles := { reMatch := fun _ _ => true }
@@ -125,6 +191,15 @@ theorem deserialize_example :
       | .ok (.inst "A" [("a", .list [])]) => true | _ => false) = true
     ∧ (match expectedDeser exO {} exCls (.dict [(.str "a", .list [.str "RED"]), (.str "b", .int 3)]) with
       | some (.inst "A" _) => true | _ => false) = true := by
+  decide
+
+/-- the example class lies in the exact fragment and its documents are JSON: the hypotheses of
+    `deserialize_exact_partial` are satisfiable -/
+theorem exact_fragment_example :
+    exactDecl exCls = true
+    ∧ strictJson (.dict [(.str "a", .list [.str "RED"]), (.str "b", .int 3)]) = true
+    ∧ exactDecl (.struct { name := "Outer", required := ["n"], accepts := ["Outer"] }
+        [("n", exCls), ("t", .tuplePos [.integer {}, .string none (some 3) none] false)] []) = true := by
   decide
 
 end Typedpy.C06
